@@ -12,7 +12,7 @@ META = {
     'rules': {
         'R8': 'both sides stop at the right time (C17.R2, C17.R3): candidates reach each builder in order of true distance — leaf key and envelope bound are the same squared distance — '
               'otherwise one cell can terminate before it was cut by a neighbour whose own cell is cut by it: a face without its reciprocal',
-        'R9': 'with periodic boundaries the start box of a cell contains its whole periodic cell (C02.R3: lower <= A - W/2, upper >= A + 3W/2 on every active axis): a start box that is '
+        'R9': 'with periodic boundaries the start box of a cell contains its whole periodic cell (C02.R3: lower < A - W/2, upper > A + 3W/2 strictly, on every active axis): a start box that is '
               'too small cuts cells with box walls, which have no reciprocal face',
         'R7': 'both sides are cut against the same candidate set (C01.R1): the builder hands every item of the candidate stream — including images of its own generator — to the '
               'clip routine unless the termination test ends the loop; a candidate filtered on one side only leaves a face without its reciprocal',
@@ -23,7 +23,7 @@ META = {
         'R3': 'link table (finalize): face pushed to left always, to right iff right is Some and shift is None, nowhere else',
         'R4': 'wrapped search: the reported shift is -1 * (query shift) and is None iff all three components are zero',
         'R5': 'one neighbour position: the builder\'s R and HalfSpace::right_loc (non-wall arm, used by the exact predicate) are both generators[right].loc + shift',
-        'R6': 'face record provenance: left == cell.idx; right, shift and the integral are taken from the plane with the index under which the triangles are accumulated',
+        'R6': 'face record provenance: left == cell.idx; right, shift and the integral are taken from the plane with the index under which the triangles are accumulated, and finalizing the record changes nothing but the integral',
     },
     'explanation': 'Decides the bookkeeping that makes faces reciprocal and stored once, each exhaustively over its finite atom set: which side creates '
                    'an interior face (antisymmetric in right>i between two constructed cells; always towards an unconstructed or shifted neighbour or a wall), '
@@ -355,6 +355,8 @@ def r6(ctx, F, rule, sfx):
             t = repr(s.tet)
             okv = a[1:4] == ['%s.vertices[%d]' % (t, i) for i in range(3)] and a[4] == 'cell.loc'
             ctx.check(rule, '%s:triangle-of-this-tetrahedron%s' % (which, sfx), okv, ', '.join(x[-24:] for x in a[1:5]), 'tet.vertices[0..2], cell.loc', where(e.body, e.line), key_extra='collectargs')
+    # ... and the record keeps left / right / shift when it is finalized and stored (only the integral is replaced by its finalized value)
+    wrappers_forward(ctx, F, rule, sfx)
 
 
 def r7(ctx, F, rule, sfx):
